@@ -13,6 +13,7 @@ import (
 	"go/token"
 	"os"
 	"path/filepath"
+	"sort"
 	"strings"
 )
 
@@ -26,6 +27,7 @@ type procSpec struct {
 	errs           map[string]string // Go error expression text -> Lean Err constructor
 	locals         []string          // Go variables bound by a verbatim statement of `stmts`
 	loopElem       string            // element type of a first-match loop (translated as a structural recursion over the list)
+	protoMaps      map[string]string // Go expression of a map keyed by protocol (e.g. conn.AllowedProtocols) -> Lean variable of type ConnSet
 	retCalls       map[string]string // Go call text in `return call(...)` (the callee returns value and error) -> Lean term
 	result         string            // value of `return nil` (error-only functions) and of falling off the end
 	pure           bool              // no error result: `return x` is `return x`
@@ -37,11 +39,14 @@ type procTr struct {
 	aux      []string // auxiliary definitions (loops) emitted before the function
 	loopCall string   // inside a first-match loop: the recursive call on the rest of the list
 	nloops   int
+	alias    map[string][2]string // range value variable -> (Lean ConnSet variable, Lean key): a pointer into the map entry
 }
 
-var fieldNames = map[string]string{"AllowedConns": "allowed", "DeniedConns": "denied", "PassConns": "pass"}
+var fieldNames = map[string]string{"AllowedConns": "allowed", "DeniedConns": "denied", "PassConns": "pass", "AllowAll": "allowAll"}
 var updMethods = map[string]string{"Subtract": "subtract", "Union": "union", "Intersection": "inter"}
-var pureMethods = map[string]string{"Copy": "copy", "IsEmpty": "isEmpty", "DeterminesAllConns": "determinesAll"}
+var pureMethods = map[string]string{"Copy": "copy", "IsEmpty": "isEmpty", "DeterminesAllConns": "determinesAll", "IsAll": "isAll"}
+var pureMethods1 = map[string]string{"ContainedIn": "containedIn", "Equal": "equal"}                                    // one argument, no effect
+var entryMethods = map[string]string{"Intersection": "inter", "Union": "union", "subtract": "subtract", "Subtract": "subtract"} // in-place updates of a map entry
 
 func leanIdent(s string) string {
 	switch s {
@@ -116,6 +121,22 @@ func (t *procTr) expr(e ast.Expr) (string, error) {
 				return s + "." + m, err
 			}
 		}
+		if sel, ok := x.Fun.(*ast.SelectorExpr); ok && len(x.Args) == 1 {
+			if m, ok := pureMethods1[sel.Sel.Name]; ok {
+				s, err := t.expr(sel.X)
+				if err != nil {
+					return "", err
+				}
+				a, err := t.expr(x.Args[0])
+				return "(" + s + "." + m + " " + a + ")", err
+			}
+		}
+	case *ast.IndexExpr:
+		// an entry of a map keyed by protocol, read where the code knows it is present (a missing entry would be a nil dereference)
+		if cs, ok := t.sp.protoMaps[norm(text(x.X))]; ok {
+			k, err := t.expr(x.Index)
+			return "((" + cs + ".get " + k + ").getD default)", err
+		}
 	}
 	return "", fmt.Errorf("untranslatable expression %q", norm(text(e)))
 }
@@ -176,6 +197,27 @@ func (t *procTr) block(list []ast.Stmt, ind string) ([]string, error) {
 		case *ast.AssignStmt:
 			if len(x.Rhs) != 1 {
 				return nil, fmt.Errorf("untranslatable assignment %q", norm(text(st)))
+			}
+			if ls, done, err := t.commaOk(x, ind); done || err != nil {
+				if err != nil {
+					return nil, err
+				}
+				out = append(out, ls...)
+				continue
+			}
+			if ix, ok := x.Lhs[0].(*ast.IndexExpr); ok && len(x.Lhs) == 1 && x.Tok == token.ASSIGN {
+				if cs, ok := t.sp.protoMaps[norm(text(ix.X))]; ok { // M[k] = v
+					k, err := t.expr(ix.Index)
+					if err != nil {
+						return nil, err
+					}
+					v, err := t.expr(x.Rhs[0])
+					if err != nil {
+						return nil, err
+					}
+					out = append(out, ind+cs+" := "+cs+".set "+k+" (some "+v+")") // a pointer taken before keeps the old object
+					continue
+				}
 			}
 			last := norm(text(x.Lhs[len(x.Lhs)-1]))
 			if last == "err" && len(x.Lhs) >= 2 {
@@ -245,6 +287,43 @@ func (t *procTr) block(list []ast.Stmt, ind string) ([]string, error) {
 			call, ok := x.X.(*ast.CallExpr)
 			if !ok {
 				return nil, fmt.Errorf("untranslatable statement %q", norm(text(st)))
+			}
+			if id, ok := call.Fun.(*ast.Ident); ok && id.Name == "delete" && len(call.Args) == 2 {
+				cs, ok := t.sp.protoMaps[norm(text(call.Args[0]))]
+				if !ok {
+					return nil, fmt.Errorf("untranslatable delete %q", norm(text(st)))
+				}
+				k, err := t.expr(call.Args[1])
+				if err != nil {
+					return nil, err
+				}
+				out = append(out, ind+cs+" := "+cs+".set "+k+" none") // a pointer taken before keeps the removed object
+				continue
+			}
+			if sel, ok := call.Fun.(*ast.SelectorExpr); ok && len(call.Args) == 1 && entryMethods[sel.Sel.Name] != "" {
+				cs, k := "", ""
+				if ix, ok := sel.X.(*ast.IndexExpr); ok {
+					if c, ok := t.sp.protoMaps[norm(text(ix.X))]; ok {
+						kk, err := t.expr(ix.Index)
+						if err != nil {
+							return nil, err
+						}
+						cs, k = c, kk
+					}
+				} else if id, ok := sel.X.(*ast.Ident); ok {
+					if al, ok := t.alias[id.Name]; ok {
+						cs, k = al[0], al[1]
+					}
+				}
+				if cs != "" { // an update through a pointer into the map: the entry changes
+					arg, err := t.expr(call.Args[0])
+					if err != nil {
+						return nil, err
+					}
+					out = append(out, ind+cs+" := "+cs+".set "+k+" (some ((("+cs+".get "+k+").getD default)."+entryMethods[sel.Sel.Name]+" "+arg+"))")
+					out = append(out, t.refresh(cs, k, ind)...)
+					continue
+				}
 			}
 			sel, ok := call.Fun.(*ast.SelectorExpr)
 			if !ok || len(call.Args) != 1 || updMethods[sel.Sel.Name] == "" {
@@ -327,21 +406,21 @@ func (t *procTr) block(list []ast.Stmt, ind string) ([]string, error) {
 			}
 			out = append(out, body...)
 		case *ast.RangeStmt:
+			ri, err := t.rangeOf(x)
+			if err != nil {
+				return nil, err
+			}
 			// search loop: `for _, v := range L { if C(v) { return R } }`  =  `if L.any (fun v => C v) then return R`
-			v, okv := x.Value.(*ast.Ident)
-			if x.Tok != token.DEFINE || !okv || len(x.Body.List) == 0 {
-				return nil, fmt.Errorf("untranslatable loop %q", norm(text(st)))
-			}
-			if k, ok := x.Key.(*ast.Ident); x.Key != nil && (!ok || k.Name != "_") {
-				return nil, fmt.Errorf("untranslatable loop %q", norm(text(st)))
-			}
-			is, ok := x.Body.List[0].(*ast.IfStmt)
+			var is *ast.IfStmt
 			var rs *ast.ReturnStmt
-			if ok && is.Init == nil && is.Else == nil && len(is.Body.List) == 1 {
-				rs, _ = is.Body.List[0].(*ast.ReturnStmt)
+			if ri.guard == "" && len(x.Body.List) == 1 {
+				if y, ok := x.Body.List[0].(*ast.IfStmt); ok && y.Init == nil && y.Else == nil && len(y.Body.List) == 1 {
+					is = y
+					rs, _ = y.Body.List[0].(*ast.ReturnStmt)
+				}
 			}
 			if rs == nil {
-				ls, err := t.foldLoop(x, v, ind)
+				ls, err := t.foldLoop(x, ri, ind)
 				if err == nil {
 					out = append(out, ls...)
 					continue
@@ -351,10 +430,6 @@ func (t *procTr) block(list []ast.Stmt, ind string) ([]string, error) {
 				}
 				// first-match loop: the body returns a value or goes on with the next element; the statements after the loop are
 				// what happens when the list is exhausted. Emitted as a structural recursion over the list.
-				lst, err2 := t.expr(x.X)
-				if err2 != nil {
-					return nil, err2
-				}
 				t.nloops++
 				name := fmt.Sprintf("%s_loop%d", t.sp.lean, t.nloops)
 				colon := strings.LastIndex(t.sp.sig, ") :")
@@ -373,11 +448,9 @@ func (t *procTr) block(list []ast.Stmt, ind string) ([]string, error) {
 				if n := len(list[i+1:]); n == 0 {
 					return nil, fmt.Errorf("first-match loop without a result after it")
 				}
-				vs := leanIdent(v.Name) + "_rest"
+				vs := leanIdent(ri.v) + "_rest"
 				t.loopCall = "return (← " + name + " " + strings.Join(args, " ") + " " + vs + ")"
-				t.decl[v.Name] = true
-				body, err2 := t.body(x.Body.List, "    ")
-				delete(t.decl, v.Name)
+				body, err2 := t.loopBody(x, ri, "    ")
 				call := t.loopCall
 				t.loopCall = ""
 				if err2 != nil {
@@ -385,20 +458,16 @@ func (t *procTr) block(list []ast.Stmt, ind string) ([]string, error) {
 				}
 				a := []string{"def " + name + " " + binders + " : List " + t.sp.loopElem + " → " + rty, "  | [] => do"}
 				a = append(a, rest...)
-				a = append(a, "  | "+leanIdent(v.Name)+" :: "+vs+" => do")
+				a = append(a, "  | "+leanIdent(ri.v)+" :: "+vs+" => do")
 				a = append(a, body...)
 				a = append(a, "    "+call)
 				t.aux = append(t.aux, strings.Join(a, "\n")+"\n")
-				out = append(out, ind+"return (← "+name+" "+strings.Join(args, " ")+" "+lst+")")
+				out = append(out, ind+"return (← "+name+" "+strings.Join(args, " ")+" "+ri.lst+")")
 				return out, nil
 			}
-			lst, err := t.expr(x.X)
-			if err != nil {
-				return nil, err
-			}
-			t.decl[v.Name] = true
+			t.decl[ri.v] = true
 			c, err := t.expr(is.Cond)
-			delete(t.decl, v.Name)
+			delete(t.decl, ri.v)
 			if err != nil {
 				return nil, err
 			}
@@ -406,7 +475,7 @@ func (t *procTr) block(list []ast.Stmt, ind string) ([]string, error) {
 			if err != nil {
 				return nil, err
 			}
-			out = append(out, ind+"if "+lst+".any (fun "+leanIdent(v.Name)+" => "+c+") then", ind+"  "+r)
+			out = append(out, ind+"if "+ri.lst+".any (fun "+leanIdent(ri.v)+" => "+c+") then", ind+"  "+r)
 		case *ast.ReturnStmt:
 			s, err := t.ret(x)
 			if err != nil {
@@ -427,13 +496,15 @@ func (t *procTr) block(list []ast.Stmt, ind string) ([]string, error) {
 
 // foldLoop: `for _, v := range L { BODY }` where BODY neither breaks, continues nor returns a value (it may return an error)
 // is the monadic left fold of BODY over L; the state of the fold is the variables of the enclosing scope BODY assigns to.
-func (t *procTr) foldLoop(x *ast.RangeStmt, v *ast.Ident, ind string) ([]string, error) {
+func (t *procTr) foldLoop(x *ast.RangeStmt, ri *rangeInfo, ind string) ([]string, error) {
 	var bad error
 	var carried []string
 	seen := map[string]bool{}
 	root := func(e ast.Expr) string {
 		for {
 			switch y := e.(type) {
+			case *ast.IndexExpr:
+				e = y.X
 			case *ast.SelectorExpr:
 				e = y.X
 			case *ast.Ident:
@@ -472,8 +543,19 @@ func (t *procTr) foldLoop(x *ast.RangeStmt, v *ast.Ident, ind string) ([]string,
 		case *ast.ExprStmt:
 			if c, ok := y.X.(*ast.CallExpr); ok {
 				_, verbatim := t.sp.stmts[norm(text(y))]
-				if sel, ok := c.Fun.(*ast.SelectorExpr); ok && (updMethods[sel.Sel.Name] != "" || verbatim) {
+				if sel, ok := c.Fun.(*ast.SelectorExpr); ok && (updMethods[sel.Sel.Name] != "" || entryMethods[sel.Sel.Name] != "" || verbatim) {
 					note(sel.X)
+					if id, ok := sel.X.(*ast.Ident); ok { // an update through the range value variable changes the map it points into
+						for _, al := range ri.alias {
+							if al[0] == id.Name && !seen[al[1]] {
+								seen[al[1]] = true
+								carried = append(carried, al[1])
+							}
+						}
+					}
+				}
+				if id, ok := c.Fun.(*ast.Ident); ok && id.Name == "delete" && len(c.Args) == 2 {
+					note(c.Args[0])
 				}
 			}
 		}
@@ -485,10 +567,6 @@ func (t *procTr) foldLoop(x *ast.RangeStmt, v *ast.Ident, ind string) ([]string,
 	if len(carried) == 0 {
 		return nil, fmt.Errorf("loop without effect on the enclosing scope %q", norm(text(x.X)))
 	}
-	lst, err := t.expr(x.X)
-	if err != nil {
-		return nil, err
-	}
 	var names []string
 	for _, c := range carried {
 		names = append(names, leanIdent(c))
@@ -497,19 +575,110 @@ func (t *procTr) foldLoop(x *ast.RangeStmt, v *ast.Ident, ind string) ([]string,
 	if len(names) > 1 {
 		pat = "(" + strings.Join(names, ", ") + ")"
 	}
-	t.decl[v.Name] = true
-	body, err := t.body(x.Body.List, ind+"    ")
-	delete(t.decl, v.Name)
+	body, err := t.loopBody(x, ri, ind+"    ")
 	if err != nil {
 		return nil, err
 	}
-	out := []string{ind + pat + " ← " + lst + ".foldlM (fun " + pat + " " + leanIdent(v.Name) + " => do"}
+	out := []string{ind + pat + " ← " + ri.lst + ".foldlM (fun " + pat + " " + leanIdent(ri.v) + " => do"}
 	for _, n := range names {
 		out = append(out, ind+"    let mut "+n+" := "+n)
 	}
 	out = append(out, body...)
 	out = append(out, ind+"    return "+pat+") "+pat)
 	return out, nil
+}
+
+// rangeInfo: what a `for … range` statement iterates over. A slice is a list; a map keyed by protocol is visited protocol by
+// protocol (TCP, UDP, SCTP), the body running for the protocols that have an entry - exact when the body touches no other entry
+// than the one of its own key, which is checked.
+type rangeInfo struct {
+	lst, v, guard string
+	pre           []string
+	alias         [][3]string // value variable, Lean ConnSet variable, key
+}
+
+func (t *procTr) rangeOf(x *ast.RangeStmt) (*rangeInfo, error) {
+	if x.Tok != token.DEFINE || len(x.Body.List) == 0 {
+		return nil, fmt.Errorf("untranslatable loop %q", norm(text(x.X)))
+	}
+	if cs, ok := t.sp.protoMaps[norm(text(x.X))]; ok {
+		k, ok := x.Key.(*ast.Ident)
+		if !ok || k.Name == "_" {
+			return nil, fmt.Errorf("loop over a protocol map without a key variable %q", norm(text(x.X)))
+		}
+		ri := &rangeInfo{lst: "Proto.all", v: k.Name, guard: "(" + cs + ".get " + leanIdent(k.Name) + ").isSome"}
+		if x.Value != nil {
+			v, ok := x.Value.(*ast.Ident)
+			if !ok {
+				return nil, fmt.Errorf("untranslatable loop %q", norm(text(x.X)))
+			}
+			if v.Name != "_" {
+				ri.pre = append(ri.pre, "let mut "+leanIdent(v.Name)+" := ("+cs+".get "+leanIdent(k.Name)+").getD default")
+				ri.alias = append(ri.alias, [3]string{v.Name, cs, leanIdent(k.Name)})
+			}
+		}
+		// independence of the iterations: every map entry the body touches is the entry of the loop's own key
+		var bad error
+		ast.Inspect(x.Body, func(n ast.Node) bool {
+			switch y := n.(type) {
+			case *ast.IndexExpr:
+				if _, ok := t.sp.protoMaps[norm(text(y.X))]; ok && norm(text(y.Index)) != k.Name {
+					bad = fmt.Errorf("loop over a protocol map touches the entry of another key: %q", norm(text(y)))
+				}
+			case *ast.CallExpr:
+				if id, ok := y.Fun.(*ast.Ident); ok && id.Name == "delete" && len(y.Args) == 2 && norm(text(y.Args[1])) != k.Name {
+					bad = fmt.Errorf("loop over a protocol map deletes the entry of another key: %q", norm(text(y)))
+				}
+			}
+			return true
+		})
+		return ri, bad
+	}
+	v, okv := x.Value.(*ast.Ident)
+	if !okv {
+		return nil, fmt.Errorf("untranslatable loop %q", norm(text(x.X)))
+	}
+	if k, ok := x.Key.(*ast.Ident); x.Key != nil && (!ok || k.Name != "_") {
+		return nil, fmt.Errorf("untranslatable loop %q", norm(text(x.X)))
+	}
+	lst, err := t.expr(x.X)
+	if err != nil {
+		return nil, err
+	}
+	return &rangeInfo{lst: lst, v: v.Name}, nil
+}
+
+// loopBody: the body of a loop for one element (the element variable bound by the caller's binder)
+func (t *procTr) loopBody(x *ast.RangeStmt, ri *rangeInfo, ind string) ([]string, error) {
+	t.decl[ri.v] = true
+	if t.alias == nil {
+		t.alias = map[string][2]string{}
+	}
+	for _, al := range ri.alias {
+		t.decl[al[0]] = true
+		t.alias[al[0]] = [2]string{al[1], al[2]}
+	}
+	defer func() {
+		delete(t.decl, ri.v)
+		for _, al := range ri.alias {
+			delete(t.decl, al[0])
+			delete(t.alias, al[0])
+		}
+	}()
+	in := ind
+	var out []string
+	if ri.guard != "" {
+		out = append(out, ind+"if "+ri.guard+" then")
+		in = ind + "  "
+	}
+	for _, l := range ri.pre {
+		out = append(out, in+l)
+	}
+	body, err := t.body(x.Body.List, in)
+	if err != nil {
+		return nil, err
+	}
+	return append(out, body...), nil
 }
 
 func (t *procTr) body(list []ast.Stmt, ind string) ([]string, error) {
@@ -523,10 +692,75 @@ func (t *procTr) body(list []ast.Stmt, ind string) ([]string, error) {
 	return out, nil
 }
 
-func (t *procTr) ifStmt(x *ast.IfStmt, ind string) ([]string, error) {
-	if x.Init != nil {
-		return nil, fmt.Errorf("untranslatable if with an init statement %q", norm(text(x.Init)))
+// refresh: a variable that points into the map entry (cs, k) sees the entry as it is after an update
+func (t *procTr) refresh(cs, k, ind string) []string {
+	var names []string
+	for v, al := range t.alias {
+		if al[0] == cs && al[1] == k {
+			names = append(names, v)
+		}
 	}
+	sort.Strings(names)
+	var out []string
+	for _, v := range names {
+		out = append(out, ind+leanIdent(v)+" := ("+cs+".get "+k+").getD default")
+	}
+	return out
+}
+
+// commaOk: `v, ok := M[k]` on a map keyed by protocol: `ok` is whether the entry is present, `v` the entry (the zero value of the
+// Go code, a nil pointer, is `default` here; it is never used where ok is false)
+func (t *procTr) commaOk(a *ast.AssignStmt, ind string) ([]string, bool, error) {
+	if len(a.Lhs) != 2 || len(a.Rhs) != 1 || a.Tok != token.DEFINE {
+		return nil, false, nil
+	}
+	ix, ok := a.Rhs[0].(*ast.IndexExpr)
+	if !ok {
+		return nil, false, nil
+	}
+	cs, ok := t.sp.protoMaps[norm(text(ix.X))]
+	if !ok {
+		return nil, false, nil
+	}
+	k, err := t.expr(ix.Index)
+	if err != nil {
+		return nil, true, err
+	}
+	var out []string
+	v, okv := a.Lhs[0].(*ast.Ident), a.Lhs[1].(*ast.Ident)
+	if v.Name != "_" {
+		t.decl[v.Name] = true
+		if t.alias == nil {
+			t.alias = map[string][2]string{}
+		}
+		t.alias[v.Name] = [2]string{cs, k} // a pointer into the map entry
+		out = append(out, ind+"let mut "+leanIdent(v.Name)+" := ("+cs+".get "+k+").getD default")
+	}
+	if okv.Name != "_" {
+		t.decl[okv.Name] = true
+		out = append(out, ind+"let mut "+leanIdent(okv.Name)+" := ("+cs+".get "+k+").isSome")
+	}
+	return out, true, nil
+}
+
+func (t *procTr) ifStmt(x *ast.IfStmt, ind string) ([]string, error) {
+	var pre []string
+	if x.Init != nil {
+		a, ok := x.Init.(*ast.AssignStmt)
+		if !ok {
+			return nil, fmt.Errorf("untranslatable if with an init statement %q", norm(text(x.Init)))
+		}
+		ls, done, err := t.commaOk(a, ind)
+		if err != nil || !done {
+			return nil, fmt.Errorf("untranslatable if with an init statement %q", norm(text(x.Init)))
+		}
+		pre = ls
+	}
+	out0, err0 := t.ifStmtNoInit(x, ind)
+	return append(pre, out0...), err0
+}
+
+func (t *procTr) ifStmtNoInit(x *ast.IfStmt, ind string) ([]string, error) {
 	c, err := t.expr(x.Cond)
 	if err != nil {
 		return nil, err
@@ -572,7 +806,10 @@ func (t *procTr) ret(r *ast.ReturnStmt) (string, error) {
 		return "return " + s, err
 	}
 	if n == 0 {
-		return "", fmt.Errorf("untranslatable bare return")
+		if t.sp.result == "" {
+			return "", fmt.Errorf("untranslatable bare return")
+		}
+		return "return " + t.sp.result, nil
 	}
 	last := norm(text(r.Results[n-1]))
 	if last == "nil" {
@@ -669,6 +906,39 @@ func genProcs(repo, out string) {
 			atoms: with(mk, map[string]string{"pe.baselineAdminNetpol == nil": "(!hasBANP)"}),
 			calls: map[string]string{"pe.baselineAdminNetpol.Selects(dst, true)": "selectsDstRes", "pe.baselineAdminNetpol.Selects(src, false)": "selectsSrcRes",
 				"pe.baselineAdminNetpol.GetIngressPolicyConns(src, dst)": "ingressConnsRes", "pe.baselineAdminNetpol.GetEgressPolicyConns(dst)": "egressConnsRes"}},
+		{file: "pkg/netpol/internal/common/connectionset.go", fn: "ConnectionSet.isAllConnectionsWithoutAllowAll", lean: "isAllConnectionsWithoutAllowAll",
+			sig: "(conn : ConnSet) : Except Err Bool", pure: true, loopElem: "Proto",
+			atoms: map[string]string{"allProtocols": "Proto.all"}, protoMaps: map[string]string{"conn.AllowedProtocols": "conn"}},
+		{file: "pkg/netpol/internal/common/connectionset.go", fn: "ConnectionSet.checkIfAllConnections", lean: "checkIfAllConnections",
+			sig: "(conn : ConnSet) : Except Err ConnSet", muts: []string{"conn"}, result: "conn",
+			atoms: map[string]string{"conn.isAllConnectionsWithoutAllowAll()": "(← isAllConnectionsWithoutAllowAll conn)"},
+			stmts: map[string]string{"conn.AllowedProtocols = map[v1.Protocol]*PortSet{}": "conn := { conn with tcp := none, udp := none, sctp := none }"}},
+		{file: "pkg/netpol/internal/common/connectionset.go", fn: "ConnectionSet.addConnection", lean: "addConnection",
+			sig: "(conn : ConnSet) (protocol : Proto) (ports : PortSet) : Except Err ConnSet", muts: []string{"conn"}, result: "conn",
+			protoMaps: map[string]string{"conn.AllowedProtocols": "conn"}},
+		{file: "pkg/netpol/internal/common/connectionset.go", fn: "ConnectionSet.AddConnection", lean: "addConnectionPublic",
+			sig: "(conn : ConnSet) (protocol : Proto) (ports : PortSet) : Except Err ConnSet", muts: []string{"conn"}, result: "conn",
+			stmts: map[string]string{"conn.addConnection(protocol, ports)": "conn ← addConnection conn protocol ports", "conn.checkIfAllConnections()": "conn ← checkIfAllConnections conn"}},
+		{file: "pkg/netpol/internal/common/connectionset.go", fn: "ConnectionSet.addAllConns", lean: "addAllConns",
+			sig: "(conn : ConnSet) : Except Err ConnSet", muts: []string{"conn"}, result: "conn",
+			atoms: map[string]string{"allProtocols": "Proto.all"},
+			stmts: map[string]string{"conn.addConnection(protocol, MakePortSet(true))": "conn ← addConnection conn protocol (PortSet.mk' true)"}},
+		{file: "pkg/netpol/internal/common/connectionset.go", fn: "ConnectionSet.Intersection", lean: "intersection",
+			sig: "(conn other : ConnSet) : Except Err ConnSet", muts: []string{"conn"}, result: "conn",
+			protoMaps: map[string]string{"conn.AllowedProtocols": "conn", "other.AllowedProtocols": "other"}},
+		{file: "pkg/netpol/internal/common/connectionset.go", fn: "ConnectionSet.Union", lean: "union",
+			sig: "(conn other : ConnSet) : Except Err ConnSet", muts: []string{"conn"}, result: "conn",
+			protoMaps: map[string]string{"conn.AllowedProtocols": "conn", "other.AllowedProtocols": "other"},
+			stmts: map[string]string{"conn.AllowedProtocols = map[v1.Protocol]*PortSet{}": "conn := { conn with tcp := none, udp := none, sctp := none }",
+				"conn.checkIfAllConnections()": "conn ← checkIfAllConnections conn"}},
+		{file: "pkg/netpol/internal/common/connectionset.go", fn: "ConnectionSet.Subtract", lean: "subtract",
+			sig: "(conn other : ConnSet) : Except Err ConnSet", muts: []string{"conn"}, result: "conn",
+			protoMaps: map[string]string{"conn.AllowedProtocols": "conn", "other.AllowedProtocols": "other"},
+			stmts: map[string]string{"conn.AllowedProtocols = map[v1.Protocol]*PortSet{}": "conn := { conn with tcp := none, udp := none, sctp := none }",
+				"conn.addAllConns()": "conn ← addAllConns conn"}},
+		{file: "pkg/netpol/internal/common/connectionset.go", fn: "ConnectionSet.ContainedIn", lean: "containedIn",
+			sig: "(conn other : ConnSet) : Except Err Bool", pure: true, loopElem: "Proto",
+			protoMaps: map[string]string{"conn.AllowedProtocols": "conn", "other.AllowedProtocols": "other"}},
 		{file: k8sdir + "netpol.go", fn: "NetworkPolicy.policyAffectsDirection", lean: "policyAffectsDirection",
 			sig: "(types : List Dir) (direction : Dir) (nEgress : Nat) : Except Err Bool", pure: true,
 			atoms: map[string]string{"len(np.Spec.PolicyTypes)": "types.length", "np.Spec.PolicyTypes": "types", "netv1.PolicyTypeIngress": "Dir.ingress",
@@ -774,6 +1044,15 @@ func genProcs(repo, out string) {
 		}
 		for _, m := range sp.locals {
 			t.decl[m] = true
+		}
+		if fd.Recv != nil {
+			for _, f := range fd.Recv.List {
+				for _, n := range f.Names {
+					if strings.Contains(sp.sig, "("+leanIdent(n.Name)+" ") || strings.Contains(sp.sig, " "+leanIdent(n.Name)+" ") {
+						t.decl[n.Name] = true
+					}
+				}
+			}
 		}
 		if fd.Type.Params != nil {
 			for _, f := range fd.Type.Params.List {
